@@ -1,6 +1,9 @@
 import Acra.Lemmas.MPEGTS
 import Acra.Model.PMT
 import Acra.Model.PES
+import Acra.Props.C06.MPEGTS
+import Acra.Props.C06.PES
+import Acra.Props.C06.STANAG
 namespace Acra.Props.C14
 open Acra.Py Acra.Model.MPEGTS Acra.Model.PMT Acra.Model.PES Acra.Lemmas.MPEGTS
 
@@ -12,8 +15,13 @@ open Acra.Py Acra.Model.MPEGTS Acra.Model.PMT Acra.Model.PES Acra.Lemmas.MPEGTS
 theorem Ext_eq_sound (a b : Ext) (h : Ext.eq a b = true) : Ext.pack a = Ext.pack b := by
   simp only [Ext.eq, beq_iff_eq] at h; rw [h]
 
+example : Ext.eq { Ext.fresh with ltw := [1, 2] } { Ext.fresh with ltw := [1, 2] } = true := by decide
+
 theorem AF_eq_sound (a b : AF) (h : AF.eq a b = true) : AF.pack a = AF.pack b := by
   simp only [AF.eq, beq_iff_eq] at h; rw [h]
+
+example : AF.eq { AF.fresh with pcr := [1, 2, 3, 4, 5, 6], length := 40 } { AF.fresh with pcr := [1, 2, 3, 4, 5, 6], length := 40 } = true := by
+  decide
 
 theorem Pkt_eq_iff (a b : Pkt) : Pkt.eq a b = true ↔ a = b := by
   constructor
@@ -25,6 +33,8 @@ theorem Pkt_eq_iff (a b : Pkt) : Pkt.eq a b = true ↔ a = b := by
 
 theorem Pkt_eq_sound (a b : Pkt) (ns : Bool) (h : Pkt.eq a b = true) : Pkt.pack a ns = Pkt.pack b ns := by
   rw [(Pkt_eq_iff a b).mp h]
+
+example : Pkt.eq C06.examplePkt C06.examplePkt = true := by decide
 
 theorem zipWith_eq_all (l1 l2 : List Pkt) (hl : l1.length = l2.length)
     (h : (List.zipWith Pkt.eq l1 l2).all id = true) : l1 = l2 := by
@@ -42,6 +52,8 @@ theorem MPEGTS_eq_sound (a b : TS) (h : TS.eq a b = true) : TS.pack a = TS.pack 
   have := zipWith_eq_all a.blocks b.blocks h.1 h.2
   cases a; cases b; simp_all
 
+example : TS.eq { blocks := [C06.examplePkt, C06.examplePktSplice] } { blocks := [C06.examplePkt, C06.examplePktSplice] } = true := by decide
+
 /-- PMT equality ignores `payload` and `_crc`; `pack` rebuilds the payload from the compared fields
     and never reads `_crc`, so equal objects encode identically -/
 theorem PMT_eq_sound (a b : PMT) (h : PMT.eq a b = true) : (PMT.pack a).2 = (PMT.pack b).2 := by
@@ -55,6 +67,11 @@ theorem PMT_eq_sound (a b : PMT) (h : PMT.eq a b = true) : (PMT.pack a).2 = (PMT
   repeat' split
   all_goals simp_all
 
+/-- non-vacuity: two PMT objects that differ in the uncompared `payload` and `_crc` compare equal -/
+example : PMT.eq { PMT.fresh with program_number := 1, pcr_pid := 0x100 }
+    { PMT.fresh with program_number := 1, pcr_pid := 0x100, crc := some 5, pkt := { Pkt.fresh with payload := [1] } } = true := by
+  decide
+
 theorem PES_eq_iff (a b : PES) : PES.eq a b = true ↔ a = b := by
   constructor
   · intro h
@@ -67,6 +84,8 @@ theorem PES_eq_iff (a b : PES) : PES.eq a b = true ↔ a = b := by
 theorem PES_eq_sound (a b : PES) (h : PES.eq a b = true) : PES.pack a = PES.pack b := by
   rw [(PES_eq_iff a b).mp h]
 
+example : PES.eq C06.headerExample C06.headerExample = true := by decide
+
 /-- full statement (`STANAG.eq a b → pack a = pack b`) is FALSE of the model and of the code:
     `__eq__` does not compare `_unknown` / `_unknown2`, which are encoded.  Proved for objects that
     agree on those two private fields (C14 quantifies over public fields); witness below. -/
@@ -76,6 +95,10 @@ theorem STANAG_eq_sound_partial (a b : STANAG) (h : STANAG.eq a b = true)
   obtain ⟨⟨h1, h2⟩, h3⟩ := h
   have := (PES_eq_iff _ _).mp h3
   cases a; cases b; simp_all
+
+example : STANAG.eq C06.stanagExample C06.stanagExample = true ∧
+    (C06.stanagExample.unknown = C06.stanagExample.unknown ∧ C06.stanagExample.unknown2 = C06.stanagExample.unknown2) :=
+  ⟨by decide, rfl, rfl⟩
 
 example : STANAG.eq STANAG.fresh { STANAG.fresh with unknown := 1 } = true ∧
     (STANAG.pack STANAG.fresh).2 ≠ (STANAG.pack { STANAG.fresh with unknown := 1 }).2 := by
@@ -108,5 +131,49 @@ theorem Pkt_eq_decode (p t : Pkt) (h : Pkt_WF p) (hs : p.sync = 0x47) (hfull : P
     · have h0 : p.adaption_ctrl = 0 := by have := h.2.2.2.2.1; omega
       have := hpl (Or.inl h0)
       cases p; simp_all
+
+set_option maxRecDepth 20000 in
+/-- non-vacuity of `Pkt_eq_decode`: a payload-only packet that fills its 188 bytes exactly -/
+example :
+    let p : Pkt := { Pkt.fresh with pid := 0x104, adaption_ctrl := 1, continuitycounter := 15, payload := List.replicate 184 0xAB }
+    Pkt_WF p ∧ p.sync = 0x47 ∧ Pkt_used p = 188 ∧ (p.adaption_ctrl = 2 → p.adaption_field.isSome = true) ∧
+    ((p.adaption_ctrl = 0 ∨ p.adaption_ctrl = 2) → p.payload = []) ∧ (¬ hasAF p → p.adaption_field = none) := by
+  refine ⟨⟨by decide, by decide, by decide, by decide, by decide, by decide, ?_⟩, by decide, by decide, by decide, by decide, ?_⟩
+  · intro a ha; simp [Pkt.fresh] at ha
+  · intro _; rfl
+
+/-- (added by the rev2 review) the extension decoded, into an object in any prior state and with anything following,
+    from `e`'s encoding compares equal to `e` as `pack` left it -/
+theorem Ext_eq_decode (e t : Ext) (rest : Bytes) (h : Ext_WF e) :
+    ∃ b, (Ext.pack e).2 = .ok b ∧ (Ext.unpack t (b ++ rest)).2 = .ok b.length ∧
+      Ext.eq (Ext.pack e).1 (Ext.unpack t (b ++ rest)).1 = true := by
+  obtain ⟨b, hp, hu, _⟩ := C06.Ext_roundtrip e t rest h
+  refine ⟨b, hp, by rw [hu], ?_⟩
+  rw [hu, Ext_pack_eq e h]
+  simp [Ext.eq]
+
+example : Ext_WF { Ext.fresh with ltw := [1, 2], seamless_splice := [1, 2, 3, 4, 5] } := by decide
+
+/-- (added by the rev2 review) the same for the adaptation field -/
+theorem AF_eq_decode (a t : AF) (rest : Bytes) (h : AF_WF a) :
+    ∃ b, (AF.pack a).2 = .ok b ∧ (AF.unpack t (b ++ rest)).2 = .ok () ∧
+      AF.eq (AF.pack a).1 (AF.unpack t (b ++ rest)).1 = true := by
+  obtain ⟨b, hp, hu, _⟩ := C06.AF_roundtrip a t rest h
+  refine ⟨b, hp, by rw [hu], ?_⟩
+  rw [hu, AF_pack_eq a h]
+  simp [AF.eq]
+
+example : AF_WF { AF.fresh with pcr := [1, 2, 3, 4, 5, 6], splice_countdown := 7, private_data := [0xAA], length := 40,
+                                adaption_extension := some { Ext.fresh with piecewise := [1, 2, 3] } } := by
+  refine ⟨by decide, by decide, by decide, by decide, ?_, by decide, by decide, by decide, by decide, by decide, by decide⟩
+  intro x hx
+  injection hx with hx
+  subst hx
+  decide
+
+
+/- Clauses of C14 with no theorem here (open): `eq_decode` for MPEGTS, MPEGPacketPMT,
+   PES and STANAG4609 (the C06 round-trip theorems give the decoded object explicitly; the comparison with the packed
+   object was not carried out).  `DescriptorTag` and `PMTStream` equality is structural in the model (`==` on the lists). -/
 
 end Acra.Props.C14
